@@ -166,7 +166,7 @@ def _body2(shard, *choices):
 
 def obligations(tier):
     q = tier == "quick"
-    steps = 6 if q else 9
+    steps = 6 if q else 8
     obls = []
     for t in ("direct", "map-direct", "two-sinks", "flatten-direct", "rate_limit"):
         for fail_at in (None, 1):
